@@ -121,6 +121,7 @@ func (e *Eng) execFunc(fn *ssa.Function, args []*Val, bindings []*Val, st *State
 		if isHeader {
 			e.loopHeader(fr, b, phis, cur, g, back)
 		}
+		fr.curBlock = b
 		e.sc.comment(fmt.Sprintf("---- %s block %d (%s)", fn.Name(), b.Index, b.Comment))
 		terminated := false
 		for _, ins2 := range b.Instrs {
